@@ -9,7 +9,7 @@ ORD = {"msb": "mostSignificantByteFirst", "lsb": "leastSignificantByteFirst"}
 
 
 def fr(r):
-    return Fraction(r["num"], r["den"])
+    return Fraction(r["num"], r["den"]) + r.get("shift", 0)      # shift: real-side translation of a coordinate (see calib.shifted_enum)
 
 
 def fnum(r):
